@@ -751,6 +751,7 @@ func runC17(tier, replay string) int {
 	// A case that could not be judged is neither held nor violated. A few are tolerated (and listed in the
 	// evidence); many mean that the run has not observed what it claims to have observed.
 	limit := 2 + len(cases)/200
+	r.Extra("added_in_seeding_round_6", "prefix-reuse cases (c17_prefix.go): addComment / setTitle with a one-character prefix while unique, newBug requests until a new id shares it, the same request again: must be refused and move no ref")
 	code := r.Finish("every mutation field found by __schema introspection x argument classes by input type (bug prefix full/short/unknown/ambiguous/empty/1-2 characters/over-long/huge/non-hex/blank, combined comment id likewise, Hash lists valid/empty/malformed/unknown/mixed, text clean/unicode/long/multiline/empty/blank/control/CRLF/padded, label lists, missing/null required fields, null/omitted input, GET transport) x {no user, user}, plus upload endpoint, read queries and resolver-level calls with file lists; aftermath cases: a refused or invalid request (every degenerate prefix/id class of every mutation, refused uploads) on a repository of >= 12 bugs (7 sharing the first id character, 2 sharing three), the cache either loaded from its on-disk files (no bug in memory) or warm, followed by probes: anonymous query reading a bug that is not in memory, accepted mutation with user on the shared handler, overview, detail query with user; registry cases: the handler stack on a MultiRepoCache holding {the default repository | one named | two named | three named | the default and a named one}, each repository addressed in turn by every mutation x repoRef {its name, omitted, null, unknown, empty, the default's internal name} x {no user, user}, uploads (the variants above plus: empty name in the URL, the default's name, the handler's empty route variable) and read queries / downloads, every repository of the registry snapshotted before and after; non-trivial = the request was served and judged by the before/after snapshot oracle; distinct = distinct (kind, mutation, auth, argument class vector)",
 		map[bool]int{true: 1, false: r.Pick(100, 1000)}[replay != ""], []string{
 			"the handler stack is assembled like commands/webui.go (mux router, auth.Middleware iff a user is attached, /graphql, /gitfile, /upload)",
